@@ -1,2 +1,163 @@
--- line-protocol driver for C12 (stub; replaced when the property is built)
-def main : IO Unit := IO.println "stub"
+import Verif.Model.AcmeAuth
+/-!
+  Line-protocol driver for C12 (ACME request authentication / replay / confinement).
+
+  `req`  — one request against the world as the harness observed it just before sending:
+    req m=POST p=x<hex chi pattern>
+        pid= pname= pknown= url= ct= parsed= fresh= tgt= tgt2= plok= deact= only= vcert=        (request)
+        ns= ue= ac=rsa|eced|other alg= es= short= jwk=-|isRsa.bytes.valid.thumb.alg
+        kid= kb= kpre= nonce= jurl=!|n ver=-|thumb:pRSB,… pe=                                   (parsed JWS)
+        nl=0|1  accs=-|id:key:keyAlg:status:loc:provId:provName,…                               (world)
+        ord=-|id:acct:prov,…  az=…  ch=…  cert=-|id:acct:revoked,…
+    numbers are interned strings (0 = ""), flags 0/1, status v|d|r, ver flags = plain,padR,padS,padRS.
+    Output: <verdict> n=<nonce live before><after> acc=<status of account kb afterwards|-> rev=<cert tgt revoked afterwards|->
+      verdict = ok | <status>:<problem type> | crash | no-such-route
+
+  `route` — what the (pasted / regenerated) table says about a route of the real router:
+    route m=POST p=x<hex pattern>
+    Output: sel=jwk|kid|either pag=0|1 parse=1 validate=1 verify=1 nonce=1   (or `none` / `unguarded`)
+-/
+open Verif Verif.AcmeAuth
+
+namespace C12
+
+def bool? (t : String) : Option Bool :=
+  if t = "1" then some true else if t = "0" then some false else none
+
+def lookup (kv : List (String × String)) (k : String) : Option String :=
+  (kv.find? (·.1 = k)).map (·.2)
+
+def nat (kv : List (String × String)) (k : String) : Option Nat := do (← lookup kv k).toNat?
+def flag (kv : List (String × String)) (k : String) : Option Bool := do bool? (← lookup kv k)
+
+def list? {α : Type} (f : String → Option α) (t : String) : Option (List α) :=
+  if t = "-" then some [] else (t.splitOn ",").mapM f
+
+def jwk? (t : String) : Option (Option Jwk) :=
+  if t = "-" then some none else
+  match t.splitOn "." with
+  | [a, b, c, d, e] => do
+    pure (some { isRsa := (← bool? a), rsaBytes := (← b.toNat?), valid := (← bool? c), thumb := (← d.toNat?), alg := (← e.toNat?) })
+  | _ => none
+
+def ver? (t : String) : Option (Nat × Ver) :=
+  match t.splitOn ":" with
+  | [a, b] =>
+    match b.toList with
+    | [p, q, r, s] => do
+      let f := fun (c : Char) => if c = '1' then some true else if c = '0' then some false else none
+      pure ((← a.toNat?), ⟨(← f p), (← f q), (← f r), (← f s)⟩)
+    | _ => none
+  | _ => none
+
+def status? (t : String) : Option Status :=
+  match t with | "v" => some .valid | "d" => some .deactivated | "r" => some .revoked | _ => none
+
+def acc? (t : String) : Option Account :=
+  match t.splitOn ":" with
+  | [a, b, c, d, e, f, g] => do
+    pure { id := (← a.toNat?), key := (← b.toNat?), keyAlg := (← c.toNat?), status := (← status? d),
+           loc := (← e.toNat?), provId := (← f.toNat?), provName := (← g.toNat?) }
+  | _ => none
+
+def owned? (t : String) : Option Owned :=
+  match t.splitOn ":" with
+  | [a, b, c] => do pure ⟨(← a.toNat?), (← b.toNat?), (← c.toNat?)⟩
+  | _ => none
+
+def cert? (t : String) : Option Cert :=
+  match t.splitOn ":" with
+  | [a, b, c] => do pure ⟨(← a.toNat?), (← b.toNat?), (← bool? c)⟩
+  | _ => none
+
+def method? (t : String) : Option Method :=
+  match t with | "GET" => some .GET | "HEAD" => some .HEAD | "POST" => some .POST | _ => none
+
+def rejS : Rej → String
+  | .malformed => "400:malformed"
+  | .badSigAlg => "400:badSignatureAlgorithm"
+  | .badNonce => "400:badNonce"
+  | .unauthorized => "401:unauthorized"
+  | .forbidden => "403:unauthorized"
+  | .accountDoesNotExist => "400:accountDoesNotExist"
+  | .serverInternal => "500:serverInternal"
+  | .notImplemented => "501:notImplemented"
+  | .alreadyRevoked => "400:alreadyRevoked"
+  | .provNotFound => "404:notFound"
+  | .crash => "crash"
+
+def statusS : Status → String | .valid => "v" | .deactivated => "d" | .revoked => "r"
+
+def kvs (line : String) : List (String × String) :=
+  (fields line).filterMap fun f =>
+    match f.splitOn "=" with
+    | [k, v] => some (k, v)
+    | _ => none
+
+def evalReq (kv : List (String × String)) : Option String := do
+  let m ← method? (← lookup kv "m")
+  let pt ← lookup kv "p"
+  let p ← if pt.startsWith "x" then unhex (pt.drop 1).toString else none
+  match findRoute pastedRoutes m p with
+  | none => pure "no-such-route"
+  | some rt =>
+  let h ← match rt.handler with | .h h => some h | .other => none
+  let ac ← match (← lookup kv "ac") with
+    | "rsa" => some AlgClass.rsa | "eced" => some .ecEd | "other" => some .other | _ => none
+  let jurl ← (fun t => if t = "!" then some none else t.toNat?.map some) (← lookup kv "jurl")
+  let jws : Jws := {
+    nsigs := (← nat kv "ns"), unprotEmpty := (← flag kv "ue"), algClass := ac, alg := (← nat kv "alg"),
+    isES := (← flag kv "es"), short := (← nat kv "short"), jwk := (← jwk? (← lookup kv "jwk")),
+    kid := (← nat kv "kid"), kidBase := (← nat kv "kb"), kidHasPrefix := (← flag kv "kpre"),
+    nonce := (← nat kv "nonce"), url := jurl, ver := (← list? ver? (← lookup kv "ver")),
+    payloadEmpty := (← flag kv "pe") }
+  let rq : Req := {
+    provId := (← nat kv "pid"), provName := (← nat kv "pname"), provKnown := (← flag kv "pknown"),
+    url := (← nat kv "url"), ctOk := (← flag kv "ct"), parsed := (← flag kv "parsed"), jws,
+    fresh := (← nat kv "fresh"), target := (← nat kv "tgt"), target2 := (← nat kv "tgt2"),
+    payloadOk := (← flag kv "plok"), wantDeactivate := (← flag kv "deact"), onlyExisting := (← flag kv "only"),
+    verCert := (← flag kv "vcert") }
+  let nl ← flag kv "nl"
+  let w : World := {
+    nonces := if nl then [jws.nonce] else [],
+    accounts := (← list? acc? (← lookup kv "accs")),
+    orders := (← list? owned? (← lookup kv "ord")),
+    authzs := (← list? owned? (← lookup kv "az")),
+    challenges := (← list? owned? (← lookup kv "ch")),
+    certs := (← list? cert? (← lookup kv "cert")) }
+  let (w', r) := serve rt.chain h rq w
+  let verdict := match r with | .ok _ => "ok" | .error e => rejS e
+  let after := w'.nonces.contains jws.nonce
+  let accS := match accById w' jws.kidBase with | some a => statusS a.status | none => "-"
+  let revS := match h, findCert w' rq.target with
+    | .revokeCert, some x => if x.revoked then "1" else "0"
+    | _, _ => "-"
+  pure s!"{verdict} n={if nl then 1 else 0}{if after then 1 else 0} acc={accS} rev={revS}"
+
+def evalRoute (kv : List (String × String)) : Option String := do
+  let m ← method? (← lookup kv "m")
+  let pt ← lookup kv "p"
+  let p ← if pt.startsWith "x" then unhex (pt.drop 1).toString else none
+  match findRoute pastedRoutes m p with
+  | none => pure "none"
+  | some rt =>
+    match rt.handler with
+    | .other =>
+      let has := fun (x : Mw) => if rt.chain.contains x then 1 else 0
+      pure s!"open parse={has .parseJWS} validate={has .validateJWS} verify={has .verifyPayload} nonce={has .addNonce}"
+    | .h h =>
+      if !rowGuarded rt then pure "unguarded" else
+      let sel := match requiredSel h with | .jwk => "jwk" | .kid => "kid" | .either => "either"
+      let pag := if rt.chain.contains .isPostAsGet then 1 else 0
+      pure s!"sel={sel} pag={pag} parse=1 validate=1 verify=1 nonce=1"
+
+def eval (line : String) : Option String :=
+  let kv := kvs line
+  match (fields line).head? with
+  | some "req" => evalReq kv
+  | some "route" => evalRoute kv
+  | _ => none
+
+end C12
+
+def main : IO Unit := Verif.lineLoop fun l => (C12.eval l).getD "parse-error"
